@@ -5,6 +5,7 @@ import (
 
 	"github.com/openconfig/gnmi/client"
 	gpb "github.com/openconfig/gnmi/proto/gnmi"
+	"github.com/openconfig/grpctunnel/tunnel"
 )
 
 // The KIND of query a Subscribe call is given (Scenario.Query, LifeOp.Query):
@@ -38,6 +39,9 @@ var queryKinds = []string{
 	"two-handlers",
 	"bad-credentials",
 	"subreq-only", // valid: SubReq instead of Queries
+	// valid: no address, but a tunnel connection (Destination.Validate asks
+	// for addresses only "if d.TunnelConn == nil")
+	"tunnel-no-addrs",
 }
 
 func knownQueryKind(k string) bool {
@@ -94,6 +98,9 @@ func mkQuery(kind string, q client.Query, w *world) client.Query {
 		q.NotificationHandler, q.ProtoHandler = w.appNotification, w.appProto
 	case "bad-credentials":
 		q.Credentials = &client.Credentials{Username: "user", Password: "pass\x00word"}
+	case "tunnel-no-addrs":
+		q.Addrs = nil
+		q.TunnelConn = &tunnel.Conn{}
 	case "subreq-only":
 		q.Queries = nil
 		q.SubReq = &gpb.SubscribeRequest{Request: &gpb.SubscribeRequest_Subscribe{Subscribe: &gpb.SubscriptionList{
